@@ -4,6 +4,7 @@ import (
 	"encoding/binary"
 	"fmt"
 	"reflect"
+	"runtime"
 	"sync"
 	"sync/atomic"
 	"syscall"
@@ -229,6 +230,25 @@ func Yield(site string) {
 	}
 }
 
+// Gosched replaces runtime.Gosched().
+func Gosched() {
+	if isActive() {
+		yieldEv(evPoll, 0) // "let the others run first"
+		return
+	}
+	runtime.Gosched()
+}
+
+// Concurrent reports whether the caller runs inside a scheduled run that has (or had) more than one task.
+func Concurrent() bool { return isActive() && getCur().count() > 1 }
+
+// Pause is the scheduling point of time.Sleep: like Gosched, the sleeper runs again only when nobody else can.
+func Pause() {
+	if isActive() {
+		yieldEv(evPoll, 0)
+	}
+}
+
 // After is wrapped around value-returning sync/atomic calls: the call is evaluated
 // first (argument evaluation order), then the client yields.
 func After[T any](v T, site string) T {
@@ -415,6 +435,7 @@ func Run(clients []func(), schedule []uint16, maxSteps int) *RunResult {
 	)
 	status := make([]int, maxTasks)
 	blockedOn := make([]uint64, maxTasks)
+	lastRun := make([]int, maxTasks)
 
 	grant := func(i int, step int64) {
 		var g [8]byte
@@ -491,7 +512,16 @@ func Run(clients []func(), schedule []uint16, maxSteps int) *RunResult {
 		pick := runnable[0]
 		if step < len(schedule) {
 			pick = runnable[int(schedule[step])%len(runnable)]
+		} else if status[pick] == stPolling {
+			// only waiting tasks are left: the one that has waited longest goes first, so that two of them cannot
+			// starve each other
+			for _, i := range runnable {
+				if lastRun[i] < lastRun[pick] {
+					pick = i
+				}
+			}
 		}
+		lastRun[pick] = step + 1
 		if len(runnable) > 1 {
 			res.Decisions = append(res.Decisions, Decision{Step: step, Runnable: len(runnable), Picked: pick})
 		}
